@@ -24,7 +24,7 @@ RULE = ('product workload: (preceding construct) x (layout between it and the sl
 ASSUMPTIONS = ['refjs decides the lexical goal from the grammar position (InputElementRegExp exactly where a '
                'PrimaryExpression may start); only inputs refjs accepts are judged']
 BUDGET_S = {'quick': 75, 'thorough': 900}
-REQUIRED_HITS = ['Lexer._token', 'slash_compared']
+REQUIRED_HITS = ['Lexer._token', 'slash_compared', 'embedded_product']
 FLOOR = {'quick': 2000, 'thorough': 8000}
 
 PRE = [
@@ -59,6 +59,11 @@ PRE = [
     ('for_cond', 'for (;@% ;) ;'), ('for_count', 'for (;;@% ) ;'), ('comma_expr', 'a,@%'),
     ('catch_rbrace', 'try {} catch (e) {}@%'), ('getter_rbrace', 'x = {get a(){}}@%'), ('paren_ident', '(a)@%'),
 ]
+EMBED = [('called_function_expression', '(function(){ # })()'), ('callback_argument', 'each(xs, function(){ # })'),
+         ('array_element', 'var m = [function(){ # }, 1]'), ('object_member', 'o = {m: function(){ # }, n: 1}'),
+         ('in_if_header', 'if ((function(){ # })()) ;'), ('conditional_operand', 'x = a ? function(){ # } : b'),
+         ('in_for_header', 'for (var i = (function(){ # })(); ;) ;'), ('deep', 'f((g([{k: (function(){ # })}])))'),
+         ('getter_body', 'o = {get p(){ # }}'), ('declaration', 'function outer(){ # }')]
 LAYOUT = [('none', ''), ('space', ' '), ('tab', '\t'), ('nbsp', '\xa0'), ('LF', '\n'), ('CRLF', '\r\n'),
           ('LS', '\u2028'), ('block_comment', ' /* c */ '), ('line_comment', ' // c\n'),
           ('multiline_comment', ' /* c\n */ '), ('vt', '\x0b')]
@@ -209,6 +214,24 @@ def run(ctx):
                 break
         ctx.extra['product_dimensions'] = {'preceding_constructs': len(PRE), 'layouts': len(LAYOUT),
                                            'following_texts': len(FOLLOW)}
+
+        # the same statements as the body of a function that is itself an operand somewhere inside parentheses,
+        # brackets, braces of an object literal or a statement header (whatever the lexer keeps about enclosing
+        # brackets must not leak into the body)
+        idx = 0
+        for (pname, pre), (lname, lay), fol, (ename, emb) in itertools.product(
+                PRE, (LAYOUT[0], LAYOUT[4], LAYOUT[7]), (FOLLOW[0], FOLLOW[1], FOLLOW[3], FOLLOW[5]), EMBED):
+            idx += 1
+            if idx % ctx.nshards != ctx.shard:
+                continue
+            if ctx.tier == 'quick' and (idx // ctx.nshards) % 4:
+                continue
+            text = emb.replace('#', pre.replace('@', lay).replace('%', fol))
+            check(ctx, tl, text, text, 'embedded_product', meta='%s:%s:%s' % (pname, lname, ename))
+            ctx.hit('embedded_product')
+            if not (idx & 0xff) and ctx.time_left() < ctx.budget_s * 0.4:
+                ctx.note('embedded product workload truncated by time in shard %d' % ctx.shard)
+                break
 
         from vk.gen import products
         for idx, (key, text) in enumerate(products.lexical_products()):
